@@ -187,25 +187,72 @@ def run(ctx):
     # ---- other guards ---------------------------------------------------------------------------------
     sp = class_methods("Spatial")
     lo = class_methods("Lorentz")
+    # (class, method): (parameter whose dimension is tested, accepted (dim(self), dim(parameter)) pairs) - the guards are read as predicates, not as text
     guard_spec = {
-        ("Spatial", "cross"): "if dim(self) != 3 or dim(other) != 3: raise TypeError",
-        ("Spatial", "deltaangle"): "if dim(other) != 3 and dim(other) != 4: raise TypeError",
-        ("Spatial", "deltaeta"): "if dim(other) != 3 and dim(other) != 4: raise TypeError",
-        ("Spatial", "deltaR"): "if dim(other) != 3 and dim(other) != 4: raise TypeError",
-        ("Spatial", "deltaR2"): "if dim(other) != 3 and dim(other) != 4: raise TypeError",
-        ("Lorentz", "deltaRapidityPhi"): "if not dim(other) == 4: raise TypeError",
-        ("Lorentz", "deltaRapidityPhi2"): "if not dim(other) == 4: raise TypeError",
-        ("Lorentz", "boost_p4"): "if dim(p4) != 4: raise TypeError",
-        ("Lorentz", "boost_beta3"): "if dim(beta3) != 3: raise TypeError",
-        ("Lorentz", "boostCM_of_p4"): "if dim(p4) != 4: raise TypeError",
-        ("Lorentz", "boostCM_of_beta3"): "if dim(beta3) != 3: raise TypeError",
+        ("Spatial", "cross"): ("other", lambda ds, do: ds == 3 and do == 3),
+        ("Spatial", "deltaangle"): ("other", lambda ds, do: do in (3, 4)),
+        ("Spatial", "deltaeta"): ("other", lambda ds, do: do in (3, 4)),
+        ("Spatial", "deltaR"): ("other", lambda ds, do: do in (3, 4)),
+        ("Spatial", "deltaR2"): ("other", lambda ds, do: do in (3, 4)),
+        ("Lorentz", "deltaRapidityPhi"): ("other", lambda ds, do: do == 4),
+        ("Lorentz", "deltaRapidityPhi2"): ("other", lambda ds, do: do == 4),
+        ("Lorentz", "boost_p4"): ("p4", lambda ds, do: do == 4),
+        ("Lorentz", "boost_beta3"): ("beta3", lambda ds, do: do == 3),
+        ("Lorentz", "boostCM_of_p4"): ("p4", lambda ds, do: do == 4),
+        ("Lorentz", "boostCM_of_beta3"): ("beta3", lambda ds, do: do == 3),
     }
-    for (cls, name), g in guard_spec.items():
+    import ast as _ast0
+
+    def _cond_value(node, dims):
+        """value of a guard condition built from dim(<name>), integer constants, == != < > <= >=, in / not in a tuple, and / or / not; None: not such a condition"""
+        if isinstance(node, _ast0.Constant):
+            return node.value
+        if isinstance(node, _ast0.Tuple):
+            vals = [_cond_value(e, dims) for e in node.elts]
+            return None if any(v is None for v in vals) else tuple(vals)
+        if isinstance(node, _ast0.Call) and unparse(node.func) == "dim" and len(node.args) == 1 and isinstance(node.args[0], _ast0.Name):
+            return dims.get(node.args[0].id)
+        if isinstance(node, _ast0.UnaryOp) and isinstance(node.op, _ast0.Not):
+            v = _cond_value(node.operand, dims)
+            return None if v is None else (not v)
+        if isinstance(node, _ast0.BoolOp):
+            vals = [_cond_value(v, dims) for v in node.values]
+            if any(v is None for v in vals):
+                return None
+            return all(vals) if isinstance(node.op, _ast0.And) else any(vals)
+        if isinstance(node, _ast0.Compare) and len(node.ops) == 1:
+            l, r = _cond_value(node.left, dims), _cond_value(node.comparators[0], dims)
+            if l is None or r is None:
+                return None
+            op = node.ops[0]
+            table = {_ast0.Eq: lambda: l == r, _ast0.NotEq: lambda: l != r, _ast0.Lt: lambda: l < r, _ast0.Gt: lambda: l > r, _ast0.LtE: lambda: l <= r,
+                     _ast0.GtE: lambda: l >= r, _ast0.In: lambda: l in r, _ast0.NotIn: lambda: l not in r}
+            f = table.get(type(op))
+            return None if f is None else f()
+        return None
+
+    for (cls, name), (par, accepts) in guard_spec.items():
         m = (sp if cls == "Spatial" else lo).get(name)
         if m is None:
             raise AnalysisError(f"anchor {cls}.{name} missing")
-        ok = len(m.sites) == 1 and g in m.sites[0].guards
-        ctx.ob("C05.dimension-guards", f"{cls}.{name}", ok, f"guards before dispatch are {m.sites[0].guards if m.sites else None}; expected `{g}`", None,
+        ok = len(m.sites) == 1
+        wrong = []
+        if ok:
+            conds = []
+            for g_ in m.sites[0].guards:
+                if g_.startswith("if ") and ": raise TypeError" in g_:
+                    try:
+                        conds.append(_ast0.parse(g_[3:g_.rindex(": raise")], mode="eval").body)
+                    except SyntaxError:
+                        pass
+            for ds in ((3, 4) if cls == "Spatial" else (4,)):
+                for do in (2, 3, 4):
+                    vals = [_cond_value(c_, {"self": ds, par: do}) for c_ in conds]
+                    rejected = any(v is True for v in vals)
+                    if rejected == accepts(ds, do):
+                        wrong.append((ds, do, "rejected" if rejected else "accepted"))
+        ctx.ob("C05.dimension-guards", f"{cls}.{name}", ok and not wrong,
+               f"guards before dispatch are {m.sites[0].guards if m.sites else None}: (dim(self), dim({par})) pairs decided wrongly: {wrong}", None,
                f"src/vector/_methods.py:{m.fn.lineno}")
 
     # ---- defaults: implementation == protocol ---------------------------------------------------------------
